@@ -102,6 +102,11 @@ def evaluate(spec):
             solos.append(baseline(digest(sspec), sspec))
         if spec.get("schedule") is None and not spec.get("est_steps"):
             spec["est_steps"] = sum(s["steps"] for s in solos)
+        if spec.get("schedule_from_end") is not None:
+            # sweep case "pre-empt actor 0 k steps before its end"
+            n0 = solos[0]["steps"]
+            k = int(spec.pop("schedule_from_end"))
+            spec["schedule"] = [[0, max(1, n0 - k)], [1, 1 << 40], [0, 1 << 40]]
         # together the actors take exactly the steps they take alone; far more = hang
         spec["max_steps"] = 20 * sum(s["steps"] for s in solos) + 200_000
         result = run_spec(spec)
@@ -155,7 +160,7 @@ def _one_run(prop, seed, index, cfg, t0):
                 "ok": not viols,
                 "violations": viols,
                 "wall": time.time() - t0,
-                "digest": run_digest(spec, result),
+                "digest": run_digest(spec, result, viols),
             }
         )
         if viols:
@@ -186,7 +191,7 @@ def finalise_spec(spec, result):
     return s
 
 
-def run_digest(spec, result):
+def run_digest(spec, result, viols=()):
     """Digest of the complete event log of a run (determinism self-test)."""
     acts = []
     for rs in result["actors"]:
@@ -212,9 +217,10 @@ def run_digest(spec, result):
             "steps": result["steps"],
             "switches": result["switches"],
             "leaks": result["leaks"],
+            "verdict": sorted({v["kind"] for v in viols}),
         }
     )
 
 
 def spec_core(spec):
-    return {k: spec.get(k) for k in ("property", "mode", "policy", "actors", "sched_seed")}
+    return {k: spec.get(k) for k in ("property", "mode", "policy", "actors", "sched_seed", "gc")}
